@@ -112,9 +112,11 @@ class ECDH1PUAlgModel(JWEKeyAgreement):
 
         sender_key = recipient.sender_key
         recipient_key = recipient.recipient_key
-        assert sender_key is not None
+        if sender_key is None:
+            raise ValueError('Missing "sender_key" for ECDH-1PU')
         assert recipient_key is not None
 
+        self.check_key_type(recipient_key)
         ephemeral_key = recipient_key.import_key(headers["epk"])
         sender_shared_key = recipient_key.exchange_derive_key(sender_key)
         ephemeral_shared_key = recipient_key.exchange_derive_key(ephemeral_key)
